@@ -17,10 +17,21 @@ type Locker interface {
 
 // ---------------------------------------------------------------- Mutex
 
+// Every primitive is scoped to the run (world) that last touched it: package-level instances in SUT code
+// (logger.LoggerLock, a global Pool, ...) start every simulated run in their zero state, whatever an earlier
+// run in the same worker process left behind -- otherwise a run would not replay in a fresh process.
 type Mutex struct {
 	locked  bool
 	tok     byte
 	waiters int
+	w       *rt.World
+}
+
+//go:norace
+func (m *Mutex) scope() {
+	if m.w != rt.W {
+		m.locked, m.waiters, m.w = false, 0, rt.W
+	}
 }
 
 //go:norace
@@ -31,6 +42,7 @@ func (m *Mutex) Lock() {
 	if rt.Aborting() {
 		return
 	}
+	m.scope()
 	if m.locked {
 		m.waiters++
 		rt.Probe(rt.PMutexContended)
@@ -49,6 +61,7 @@ func (m *Mutex) TryLock() bool {
 	if rt.Aborting() {
 		return true
 	}
+	m.scope()
 	if m.locked {
 		return false
 	}
@@ -62,6 +75,7 @@ func (m *Mutex) Unlock() {
 	if rt.Aborting() {
 		return
 	}
+	m.scope()
 	if !m.locked {
 		panic("sync: unlock of unlocked mutex")
 	}
@@ -78,6 +92,14 @@ type RWMutex struct {
 	pendingW int
 	rtok     byte // readerSem
 	wtok     byte // writerSem
+	wd       *rt.World
+}
+
+//go:norace
+func (m *RWMutex) scope() {
+	if m.wd != rt.W {
+		m.w, m.readers, m.pendingW, m.wd = false, 0, 0, rt.W
+	}
 }
 
 type rwWait struct {
@@ -98,6 +120,7 @@ func (m *RWMutex) Lock() {
 	if rt.Aborting() {
 		return
 	}
+	m.scope()
 	if m.w || m.readers > 0 {
 		m.pendingW++
 		if m.readers > 0 {
@@ -119,6 +142,7 @@ func (m *RWMutex) TryLock() bool {
 	if rt.Aborting() {
 		return true
 	}
+	m.scope()
 	if m.w || m.readers > 0 {
 		return false
 	}
@@ -133,6 +157,7 @@ func (m *RWMutex) Unlock() {
 	if rt.Aborting() {
 		return
 	}
+	m.scope()
 	if !m.w {
 		panic("sync: Unlock of unlocked RWMutex")
 	}
@@ -147,6 +172,7 @@ func (m *RWMutex) RLock() {
 	if rt.Aborting() {
 		return
 	}
+	m.scope()
 	for m.w || m.pendingW > 0 {
 		rt.Block(rwWait{m, false}, 0, "sync.RWMutex.RLock", -1)
 	}
@@ -163,6 +189,7 @@ func (m *RWMutex) TryRLock() bool {
 	if rt.Aborting() {
 		return true
 	}
+	m.scope()
 	if m.w || m.pendingW > 0 {
 		return false
 	}
@@ -176,6 +203,7 @@ func (m *RWMutex) RUnlock() {
 	if rt.Aborting() {
 		return
 	}
+	m.scope()
 	if m.readers <= 0 {
 		panic("sync: RUnlock of unlocked RWMutex")
 	}
@@ -203,6 +231,14 @@ type WaitGroup struct {
 	gen     uint64 // incremented whenever the counter reaches zero with waiters present
 	tok     byte
 	sema    byte // only an address: models the "first Add must be synchronized with Wait" rule for the race detector
+	w       *rt.World
+}
+
+//go:norace
+func (wg *WaitGroup) scope() {
+	if wg.w != rt.W {
+		wg.n, wg.waiters, wg.w = 0, 0, rt.W
+	}
 }
 
 type wgWait struct {
@@ -218,6 +254,7 @@ func (wg *WaitGroup) Add(delta int) {
 	if rt.Aborting() {
 		return
 	}
+	wg.scope()
 	if delta < 0 {
 		rt.RaceReleaseMerge(unsafe.Pointer(&wg.tok))
 	}
@@ -248,6 +285,7 @@ func (wg *WaitGroup) Wait() {
 	if rt.Aborting() {
 		return
 	}
+	wg.scope()
 	if wg.n != 0 {
 		if wg.waiters == 0 {
 			rt.RaceWriteRange(unsafe.Pointer(&wg.sema), 1)
@@ -285,6 +323,7 @@ func (r wgRun) run() {
 type Once struct {
 	state int // 0 = not run, 1 = running, 2 = done
 	tok   byte
+	w     *rt.World
 }
 
 //go:norace
@@ -302,6 +341,9 @@ func (o *Once) Do(f func()) {
 func (o *Once) begin() bool {
 	if rt.Aborting() {
 		return false
+	}
+	if o.w != rt.W {
+		o.state, o.w = 0, rt.W
 	}
 	for o.state == 1 {
 		rt.Block(o, 0, "sync.Once.Do", -1)
@@ -391,10 +433,14 @@ type mapEntry struct {
 type Map struct {
 	head, tail *mapEntry
 	tok        byte
+	w          *rt.World
 }
 
 //go:norace
 func (m *Map) find(k any) *mapEntry {
+	if m.w != rt.W {
+		m.head, m.tail, m.w = nil, nil, rt.W
+	}
 	for e := m.head; e != nil; e = e.next {
 		if !e.deleted && e.k == k {
 			return e
@@ -435,7 +481,7 @@ func (m *Map) Store(key, value any) {
 
 //go:norace
 func (m *Map) Clear() {
-	if rt.Aborting() {
+	if rt.Aborting() || m.w != rt.W {
 		return
 	}
 	for e := m.head; e != nil; e = e.next {
@@ -522,7 +568,12 @@ func (m *Map) Range(f func(key, value any) bool) {
 }
 
 //go:norace
-func (m *Map) first() *mapEntry { return m.head }
+func (m *Map) first() *mapEntry {
+	if m.w != rt.W {
+		m.head, m.tail, m.w = nil, nil, rt.W
+	}
+	return m.head
+}
 
 //go:norace
 func (m *Map) after(e *mapEntry) *mapEntry { return e.next }
@@ -532,19 +583,70 @@ func (m *Map) kv(e *mapEntry) (any, any) { return e.k, e.v }
 
 // ---------------------------------------------------------------- Pool, OnceFunc & co
 
-// Pool never reuses (legal: sync.Pool may drop anything at any time).
+// Pool reuses objects like the real sync.Pool may: Put keeps the object on a free list, Get pops the
+// most recent one or -- a choice of the run -- drops it and calls New (both are legal Pool behaviour).
+// Race edges as in the real Pool: Put releases, Get of that object acquires.
+type poolEnt struct {
+	v    any
+	tok  byte
+	next *poolEnt
+}
+
 type Pool struct {
-	New func() any
+	New  func() any
+	free *poolEnt
+	n    int
+	w    *rt.World
+}
+
+//go:norace
+func (p *Pool) scope() {
+	if p.w != rt.W {
+		p.free, p.n, p.w = nil, 0, rt.W
+	}
+}
+
+//go:norace
+func (p *Pool) pop() (any, bool) {
+	p.scope()
+	if rt.Aborting() || p.free == nil {
+		return nil, false
+	}
+	e := p.free
+	p.free = e.next
+	p.n--
+	if rt.Choose(4, rt.KSched) == 3 {
+		return nil, false // dropped, as a GC cycle would
+	}
+	rt.RaceAcquire(unsafe.Pointer(&e.tok))
+	rt.Seq()
+	return e.v, true
+}
+
+//go:norace
+func (p *Pool) push(v any) {
+	p.scope()
+	if rt.Aborting() || v == nil || p.n >= 64 {
+		return
+	}
+	e := &poolEnt{v: v, next: p.free}
+	rt.RaceRelease(unsafe.Pointer(&e.tok))
+	p.free = e
+	p.n++
+	rt.Seq()
 }
 
 func (p *Pool) Get() any {
+	if v, ok := p.pop(); ok {
+		return v
+	}
 	if p.New != nil {
 		return p.New()
 	}
 	return nil
 }
 
-func (p *Pool) Put(any) {}
+func (p *Pool) Put(v any) { p.push(v) }
 
 func OnceFunc(f func()) func() {
 	o := &onceFn{f: f}
